@@ -7,7 +7,8 @@ Conformance (cmd/vdp c16): every (sender node, target node, unbound service) on 
 notices expected are awaited, then every socket obtains its own later notice (per-socket barrier: a socket's channel is FIFO behind
 the node's broker), then the complete per-socket notification lists are compared; same-node unknown service -> error and no notice;
 firewall drop at destination and in transit -> no notice within the barrier; DialContext to a never-bound service and to a listener
-closed a moment ago must return within 5 s of the notice reaching the dialling socket (handshake idle timeout is 15 s); the
+closed a moment ago must end BECAUSE of the notice (context.Canceled by the unreachable monitor), not by running into the 14 s deadline /
+the 15 s handshake idle time-out although notices had reached the dialling socket at least 5 s earlier (no such evidence: inconclusive); the
 close-while-sending race runs in a child process (a crash is an observation) and is judged arrival by arrival from the hook events;
 socket churn (UnreachBroker.tla: the broker hands every notice to every subscribed socket and waits for all of them): while sockets of a node
 are opened and closed and dials run concurrently, the sockets that stay open must get a notice for every datagram, and a later send and a
@@ -70,5 +71,5 @@ def run(tier, seed, replay=None):
         "notifications reach a socket's SubscribeUnreachable channel in the order in which the node's unreachable broker accepted them (per-socket FIFO), which is what makes the per-socket sentinel a barrier",
         "close race: a datagram that was waiting for the reader when Close() ran may be dropped without notice (the listener existed when it arrived: nothing is demanded), at most one per deliverer; with one deliverer every arrival is classified from the ordered hook events, with three deliverers (two neighbours and a local sender) the round is judged by accounting (arrivals = delivered + answered + abandoned)",
         "socket churn: 6 goroutines x 6*rounds open/send/close cycles and 4 concurrent diallers against two steady senders; a wedged node is recognised by missing notices while the data plane has been idle for 3 s",
-        "dial threshold 5 s after the notice reached the dialling socket (measured from the unr_socket hook event); handshake idle timeout is 15 s",
+        "dials are judged by cause: ended by context.Canceled (only the unreachable monitor cancels that context) = abandoned by the notice, whatever the time; a violation needs a dial that ran out of time (14 s deadline, below the 15 s handshake idle time-out) although >= 2 notices reached its own socket (unr_socket events, attributed by a service name used by that dial only), the first >= 5 s before the end; running out of time without that evidence is inconclusive",
     ])
